@@ -260,11 +260,11 @@ def runP (p : Nat) (op : String) (args : List String) (impl : String) : Option (
   /- ---------- vanishing polynomial of a domain ---------- -/
   | "dmulvan", [a, n, g, h] => do
     let a ← pD p a; let fa := cD a.toArray; let D ← pDom p n g h
-    some (withTag (shD (mulByVanishingPoly a D.size)) (if D.offset == 1 then "subgroup" else "coset"),
+    some (withTag (shD (mulByVanishingPoly a D.size D.offsetPowSize)) (if D.offset == 1 then "subgroup" else "coset"),
       pre (canonD a) (judgeD impl (a.length + D.size + 1) (conv fa (vanFn D))))
   | "ddivvan", [a, n, g, h] => do
     let a ← pD p a; let fa := cD a.toArray; let D ← pDom p n g h
-    some (withTag (oQR (divideByVanishingPoly a D.size))
+    some (withTag (oQR (divideByVanishingPoly a D.size D.offsetPowSize))
         ((if a.length < D.size then "short" else if a.length ≤ 2 * D.size then "one" else "many") ++ (if D.offset == 1 then "-subgroup" else "-coset")),
       pre (canonD a) (judgeQR impl a.length fa (D.size + 1) (vanFn D)))
   /- ---------- dense ⊕ sparse ---------- -/
@@ -282,18 +282,18 @@ def runP (p : Nat) (op : String) (args : List String) (impl : String) : Option (
       pre (canonD a && canonS s) (judgeD impl (max a.length (boundS s)) (fun i => fa i - cS s i)))
   | "dssubas", [a, s] => do
     let a ← pD p a; let fa := cD a.toArray; let s ← pS p s
-    some (withTag (oD (subAssignDS a s)) (tag2 (Poly.isZero a) (sIsZero s) a.length (boundS s)),
+    some (withTag (shD (subAssignDS a s)) (tag2 (Poly.isZero a) (sIsZero s) a.length (boundS s)),
       pre (canonD a && canonS s) (judgeD impl (max a.length (boundS s)) (fun i => fa i - cS s i)))
   | "s2d", [s] => do
     let s ← pS p s
     some (oD (sparseToDense s), pre (canonS s) (judgeD impl (boundS s) (cS s)))
   | "d2s", [a] => do
     let a ← pD p a; let fa := cD a.toArray
-    some (oS (denseToSparse a), pre (canonD a) (judgeS impl a.length fa))
+    some (shS (denseToSparse a), pre (canonD a) (judgeS impl a.length fa))
   /- ---------- sparse ---------- -/
   | "sfrom", [v] | "sfroms", [v] => do
     let v ← pS p v
-    some (oS (sFromCoefficientsVec v), judgeS impl (boundS v) (cS v))
+    some (shS (sFromCoefficientsVec v), judgeS impl (boundS v) (cS v))
   | "sdeg", [s] => do
     let s ← pS p s
     let m := match sDegree s with
@@ -337,7 +337,7 @@ def runP (p : Nat) (op : String) (args : List String) (impl : String) : Option (
     some (shS (sScale s f), pre (canonS s) (judgeS impl (boundS s) (fun i => cS s i * f)))
   | "smul", [s, t] => do
     let s ← pS p s; let t ← pS p t
-    some (withTag (oS (sMul s t)) (tag2 (sIsZero s) (sIsZero t) 0 0),
+    some (withTag (shS (sMul s t)) (tag2 (sIsZero s) (sIsZero t) 0 0),
       pre (canonS s && canonS t) (judgeS impl (boundS s + boundS t) (conv (cS s) (cS t))))
   /- ---------- evaluation over a domain / coset, interpolation ---------- -/
   | "devaldom", [a, n, g, h] => do
